@@ -1,4 +1,4 @@
-import PonyVerif.Lemmas.Undo
+import PonyVerif.Lemmas.UndoInv
 /-
   C13 — a modification that raises leaves the session exactly as it was.
 
@@ -28,8 +28,9 @@ def observe (s : Store) : Observation :=
   { n := s.n, row := fun o => if o < s.n then some (s.row o) else none, toSave := s.toSave,
     pkIdx := s.pkIdx, idx := s.idx, cidx := s.cidx, modColl := s.modColl }
 
-/-- well-formed session: `_save_pos_` and `objects_to_save` agree; the key indexes hold exactly the current key values of live objects -/
-def WF (sch : Schema) (s : Store) : Prop := SaveOk s ∧ IdxOk sch s
+/-- well-formed session: `_save_pos_` and `objects_to_save` agree; the key indexes hold exactly the current key values of live objects;
+    their entries belong to declared keys and point to objects of the session -/
+def WF (sch : Schema) (s : Store) : Prop := SaveOk s ∧ IdxOk sch s ∧ IdxDom sch s
 
 theorem observe_eq_of_eqv {s R : Store} (h : Eqv s.n R s) : observe R = observe s := by
   simp only [observe, h.n, h.toSave, h.pkIdx, h.idx, h.cidx, h.modColl, Observation.mk.injEq, true_and, and_true]
@@ -49,43 +50,43 @@ theorem C13 (sch : Schema) (s : Store) (op : Op) (e : Err) (hwf : WF sch s) (h :
     generalize hr : run1 sch (Op.create ent pk vals) { store := s } = r at h ⊢
     cases r with
     | ok st => simp at h
-    | err e' st => exact observe_eq_of_eqv (failing_call_restores _ s e' st hwf.1 hwf.2 hr)
+    | err e' st => exact observe_eq_of_eqv (failing_call_restores _ s e' st hwf.1 hwf.2.1 hr)
   | set o a v =>
     simp only at h ⊢
     generalize hr : run1 sch (Op.set o a v) { store := s } = r at h ⊢
     cases r with
     | ok st => simp at h
-    | err e' st => exact observe_eq_of_eqv (failing_call_restores _ s e' st hwf.1 hwf.2 hr)
+    | err e' st => exact observe_eq_of_eqv (failing_call_restores _ s e' st hwf.1 hwf.2.1 hr)
   | setMany o kw =>
     simp only at h ⊢
     generalize hr : run1 sch (Op.setMany o kw) { store := s } = r at h ⊢
     cases r with
     | ok st => simp at h
-    | err e' st => exact observe_eq_of_eqv (failing_call_restores _ s e' st hwf.1 hwf.2 hr)
+    | err e' st => exact observe_eq_of_eqv (failing_call_restores _ s e' st hwf.1 hwf.2.1 hr)
   | add o c items =>
     simp only at h ⊢
     generalize hr : run1 sch (Op.add o c items) { store := s } = r at h ⊢
     cases r with
     | ok st => simp at h
-    | err e' st => exact observe_eq_of_eqv (failing_call_restores _ s e' st hwf.1 hwf.2 hr)
+    | err e' st => exact observe_eq_of_eqv (failing_call_restores _ s e' st hwf.1 hwf.2.1 hr)
   | remove o c items =>
     simp only at h ⊢
     generalize hr : run1 sch (Op.remove o c items) { store := s } = r at h ⊢
     cases r with
     | ok st => simp at h
-    | err e' st => exact observe_eq_of_eqv (failing_call_restores _ s e' st hwf.1 hwf.2 hr)
+    | err e' st => exact observe_eq_of_eqv (failing_call_restores _ s e' st hwf.1 hwf.2.1 hr)
   | clear o c =>
     simp only at h ⊢
     generalize hr : run1 sch (Op.clear o c) { store := s } = r at h ⊢
     cases r with
     | ok st => simp at h
-    | err e' st => exact observe_eq_of_eqv (failing_call_restores _ s e' st hwf.1 hwf.2 hr)
+    | err e' st => exact observe_eq_of_eqv (failing_call_restores _ s e' st hwf.1 hwf.2.1 hr)
   | delete o =>
     simp only at h ⊢
     generalize hr : run1 sch (Op.delete o) { store := s } = r at h ⊢
     cases r with
     | ok st => simp at h
-    | err e' st => exact observe_eq_of_eqv (failing_call_restores _ s e' st hwf.1 hwf.2 hr)
+    | err e' st => exact observe_eq_of_eqv (failing_call_restores _ s e' st hwf.1 hwf.2.1 hr)
 
 /-- the same for `step`, the state-transition function of the model -/
 theorem C13_step (sch : Schema) (s : Store) (op : Op) (e : Err) (hwf : WF sch s) (h : (stepO sch s op).err = some e) :
@@ -120,15 +121,16 @@ theorem C13_key_lookups (sch : Schema) (s : Store) (op : Op) (e : Err) (hwf : WF
 
 /-- the empty session is well-formed -/
 theorem C13_WF_init (sch : Schema) : WF sch ({} : Store) :=
-  ⟨fun o ho => absurd ho (Nat.not_lt_zero o), fun o ho => absurd ho (Nat.not_lt_zero o)⟩
+  ⟨fun o ho => absurd ho (Nat.not_lt_zero o), fun o ho => absurd ho (Nat.not_lt_zero o),
+   ⟨fun _ _ _ h => (by cases h), fun _ _ _ h => (by cases h)⟩⟩
 
 /-- a failed call leaves a well-formed session well-formed -/
 theorem C13_failed_call_keeps_WF (sch : Schema) (s : Store) (op : Op) (e : Err) (hwf : WF sch s) (h : (stepO sch s op).err = some e) :
     WF sch (step sch s op) := by
   have key : ∀ (r : Res), run1 sch op { store := s } = r → ∀ e' st, r = .err e' st → WF sch (undoAll st.trail st.store) := by
     intro r hr e' st hrr
-    have he := failing_call_restores op s e' st hwf.1 hwf.2 (hr.trans hrr)
-    exact ⟨hwf.1.of_eqv he, hwf.2.of_eqv he⟩
+    have he := failing_call_restores op s e' st hwf.1 hwf.2.1 (hr.trans hrr)
+    exact ⟨hwf.1.of_eqv he, hwf.2.1.of_eqv he, hwf.2.2.of_eqv he⟩
   unfold step stepO at *
   cases op with
   | flush ids => simp at h
@@ -175,7 +177,53 @@ theorem C13_failed_call_keeps_WF (sch : Schema) (s : Store) (op : Op) (e : Err) 
     | ok st => simp at h
     | err e' st => exact key _ hr e' st rfl
 
-/-- NOT PROVED here (kept as a statement): successful calls and flush keep the session well-formed.  Its second half (`IdxOk`: the
+/-- successful calls that register no key entries themselves — delete with cascades of any depth, every collection call
+    (assign, add, remove, clear), assignment of a reference / collection / int attribute that is not part of a key — keep the
+    session well-formed; together with `C13_failed_call_keeps_WF`: EVERY outcome of such a call does -/
+theorem C13_WF_quiet_step (sch : Schema) (s : Store) (op : Op) (hq : quiet sch op = true) (hwf : WF sch s) : WF sch (step sch s op) := by
+  cases herr : (stepO sch s op).err with
+  | some e => exact C13_failed_call_keeps_WF sch s op e hwf herr
+  | none =>
+    have key : ∀ st', run1 sch op { store := s } = .ok st' → WF sch st'.store :=
+      fun st' h => quiet_call_keeps op s st' hq hwf.1 hwf.2.1 hwf.2.2 h
+    unfold step stepO at *
+    cases op with
+    | flush ids => cases hq
+    | create ent pk vals => cases hq
+    | setMany o kw => cases hq
+    | set o a v =>
+      simp only at herr ⊢
+      generalize hr : run1 sch (Op.set o a v) { store := s } = r at herr ⊢
+      cases r with
+      | ok st => exact key st hr
+      | err e' st => simp at herr
+    | add o c items =>
+      simp only at herr ⊢
+      generalize hr : run1 sch (Op.add o c items) { store := s } = r at herr ⊢
+      cases r with
+      | ok st => exact key st hr
+      | err e' st => simp at herr
+    | remove o c items =>
+      simp only at herr ⊢
+      generalize hr : run1 sch (Op.remove o c items) { store := s } = r at herr ⊢
+      cases r with
+      | ok st => exact key st hr
+      | err e' st => simp at herr
+    | clear o c =>
+      simp only at herr ⊢
+      generalize hr : run1 sch (Op.clear o c) { store := s } = r at herr ⊢
+      cases r with
+      | ok st => exact key st hr
+      | err e' st => simp at herr
+    | delete o =>
+      simp only at herr ⊢
+      generalize hr : run1 sch (Op.delete o) { store := s } = r at herr ⊢
+      cases r with
+      | ok st => exact key st hr
+      | err e' st => simp at herr
+
+/-- NOT PROVED here (kept as a statement; `C13_WF_quiet_step` is its proved part): what is missing are the calls that register key
+    entries themselves (Entity.__init__, Entity.set, assignment of a key attribute) and flush: successful calls and flush keep the session well-formed.  Its second half (`IdxOk`: the
     key indexes hold exactly the current key values of live objects) is the invariant of property C11; this check evaluates
     `WF` on every state it visits, on the model (driver field `wf`) and on the real objects (engine `real_wf`). -/
 def C13_WF_invariant_full : Prop := ∀ (sch : Schema) (s : Store) (op : Op), WF sch s → WF sch (step sch s op)
@@ -207,5 +255,8 @@ example : (stepO demoSchema (run demoSchema {} demoHistory) (.delete 0)).err = s
 
 /-- ... after it registered undo entries (the child's reference, the reverse removal, the collection rewrite) -/
 example : (run1 demoSchema (.delete 0) { store := run demoSchema {} demoHistory }).st.trail.length = 3 := by decide
+
+/-- the guard of `C13_WF_quiet_step` is met by the refused delete above and by the collection calls -/
+example : quiet demoSchema (.delete 0) = true ∧ quiet demoSchema (.add 0 0 [1]) = true ∧ quiet demoSchema (.set 1 1 (.val none)) = true := by decide
 
 end PonyVerif.Props.C13
